@@ -166,7 +166,7 @@ theorem sendSnap_concrete {objSize : Nat → Option Nat} {size : TypeId → Nat 
   · right
     refine ⟨⟨"with_packer(..).unwrap()", ?_⟩, _, _, d, xs, hd, hxs, hbig⟩
     simp only [sendSnap, Storage.addSnap, hcreate]
-    simp only [execOps, hxs, hbig, if_true]
+    simp [execOps, hxs, hbig]
   · left
     have hw : (execOps objSize).write d = some (packInts xs) := by
       simp only [execOps, hxs, hbig, if_false]
@@ -175,7 +175,9 @@ theorem sendSnap_concrete {objSize : Nat → Option Nat} {size : TypeId → Nat 
       (packInts xs) (by omega)
     exact ⟨{ tick := tick, base := st.deltaTick.getD (-1), bytes := packInts xs,
              crc := (execOps objSize).crc T }, ms,
-      by simp only [sendSnap, Storage.addSnap, hcreate, hw, hms]⟩
+      by
+        have hglue : (execOps objSize).emptyWhenSame = false := rfl
+        simp only [sendSnap, Storage.addSnap, hcreate, hglue, Bool.false_and, Bool.false_eq_true, if_false, hw, hms]⟩
 
 /-- every snapshot on the free list was made on the builder chain, and every stored snapshot is an
 ancestor of the newest stored one -/
